@@ -1,7 +1,519 @@
-//! C16 — correspondence harness (stub; see /verif/AGENT_GUIDE.md).
+//! C16 (hnode half) — compact-block reconstruction on the REAL `Relayer::reconstruct_block`
+//! (a real `Shared` + chain service + tx-pool service + dummy network, `SyncShared`, `Relayer`),
+//! and the REAL network frame `ckb_network::compress::{compress, decompress}`.
+//!
+//! Stream `cb` (model: lean/CkbVerif/Driver/C16.lean, `Model/Compact.lean`):
+//!   recon root=<ids|bad> ph=<ok|bad> eh=<ok|bad> sids=<ids> pre=<i:t;…> recv=<ids> uncles=<n> upeer=<idx> ext=<0|1> props=<n>
+//!      -> verify-err <kind> | block txs=<ids> hdr=<same|reset> | missing txs=<idx> uncles=<idx> | collided | unmatched
+//!   ids name real, pairwise different transactions (their real short ids are pairwise different,
+//!   the model uses the id as short id); `root=<ids>` puts the real merkle root of that list into the
+//!   compact header; ph/eh say whether proposals_hash / extra_hash in the compact header match its
+//!   proposals / uncles / extension; uncles are real uncle blocks, `upeer` are the indexes supplied
+//!   by the peer (the rest is unknown to the chain, which holds only the genesis block); the
+//!   tx-pool is empty.  As in `CompactBlockProcess::execute`, `CompactBlockVerifier::verify` runs
+//!   first and reconstruction only on success.
+//!
+//! Oracle (implementation alone):
+//!   reconstruct-header-differs   Block(b) but b.hash() != hash of the compact header (whose PoW was checked)
+//!   reconstruct-wrong-body       Block(b) but b's transactions are not the list the header root commits to /
+//!                                proposals or uncle hashes differ from the compact block
+//!   reconstruct-missing-imprecise  Missing(ixs, us) but ixs/us are not exactly the unavailable positions
+//!   reconstruct-panic
+//!
+//! Stream `frame` (model: `Model/Frame.lean`):
+//!   dec v <hex>   -> err | raw <len> | snappy <len>    frames whose snappy body is known to be valid
+//!   dec u <hex>   -> err | raw <len> | flagged          arbitrary frames: only the flag / raw decision is compared,
+//!                                                      the size bound is the oracle `frame-unbounded`
+//!   cmp <len>     -> raw | snappy                        first byte of `compress(zeros(len))`
 use crate::common::*;
+use crate::node::*;
+use ckb_network::compress::{compress, decompress};
+use ckb_sync::{ReconstructionResult, Relayer, StatusCode, SyncShared, verif_compact_block_verify};
+use ckb_types::core::{BlockView, HeaderBuilder, TransactionBuilder, TransactionView, UncleBlockView};
+use ckb_types::packed::{self, Byte32, CellOutput};
+use ckb_types::prelude::*;
+use ckb_types::utilities::merkle_root;
+use std::panic::{AssertUnwindSafe, catch_unwind};
+use std::sync::Arc;
 
-pub fn run(_opts: &Opts) {
-    eprintln!("C16: harness not implemented in this crate");
-    std::process::exit(2);
+const N_TX: usize = 14;
+
+struct World {
+    _node: Node,
+    relayer: Relayer,
+    rt: tokio::runtime::Runtime,
+    txs: Vec<TransactionView>,
+    uncles: Vec<UncleBlockView>,
+    proposals: Vec<packed::ProposalShortId>,
+}
+
+fn list(xs: &[usize]) -> String {
+    if xs.is_empty() { "-".into() } else { xs.iter().map(|x| x.to_string()).collect::<Vec<_>>().join(",") }
+}
+
+fn parse_list(s: &str) -> Vec<usize> {
+    if s == "-" { vec![] } else { s.split(',').map(|x| x.parse().expect("number")).collect() }
+}
+
+fn tx_root(txs: &[&TransactionView]) -> Byte32 {
+    let raw: Vec<Byte32> = txs.iter().map(|t| t.hash()).collect();
+    let wit: Vec<Byte32> = txs.iter().map(|t| t.witness_hash()).collect();
+    merkle_root(&[merkle_root(&raw), merkle_root(&wit)])
+}
+
+impl World {
+    fn new(out: &std::path::Path) -> World {
+        let dir = scratch_dir(out, "c16");
+        let cfg = NodeCfg { with_pool: true, ..Default::default() };
+        let consensus = make_consensus(&cfg);
+        let node = Node::start(&dir, consensus, &cfg);
+        let (_tx, rx) = ckb_channel::unbounded::<ckb_tx_pool::service::TxVerificationResult>();
+        let sync_shared = Arc::new(SyncShared::new(node.shared.clone(), Default::default(), rx));
+        let relayer = Relayer::new(node.controller().clone(), sync_shared);
+        let rt = tokio::runtime::Builder::new_current_thread().enable_all().build().unwrap();
+        let txs = (0..N_TX)
+            .map(|i| {
+                TransactionBuilder::default()
+                    .output(CellOutput::new_builder().capacity(1000 + i as u64).build())
+                    .output_data(ckb_types::bytes::Bytes::from(vec![i as u8; i % 3]))
+                    .witness(ckb_types::bytes::Bytes::from(vec![0xa0 + i as u8; 1 + i % 2]))
+                    .build()
+            })
+            .collect();
+        let uncles = (0..3u64)
+            .map(|i| {
+                let header = HeaderBuilder::default().number(5 + i).timestamp(77 + i).nonce(i as u128 + 9).build();
+                packed::UncleBlock::new_builder().header(header.data()).build().into_view()
+            })
+            .collect();
+        let proposals = (0..4u8).map(|i| packed::ProposalShortId::new([i + 1; 10])).collect();
+        World { _node: node, relayer, rt, txs, uncles, proposals }
+    }
+
+    /// one `recon` line on the real code; returns the canonical answer
+    fn recon(&self, out: &mut Out, line: &str) -> String {
+        let f = |k: &str| -> String {
+            line.split(' ').find_map(|t| t.strip_prefix(&format!("{k}="))).unwrap_or_else(|| panic!("missing {k}")).to_string()
+        };
+        let sids = parse_list(&f("sids"));
+        let pre: Vec<(usize, usize)> = if f("pre") == "-" {
+            vec![]
+        } else {
+            f("pre").split(';').map(|p| {
+                let (a, b) = p.split_once(':').expect("pre pair");
+                (a.parse().unwrap(), b.parse().unwrap())
+            }).collect()
+        };
+        let recv = parse_list(&f("recv"));
+        let n_uncles: usize = f("uncles").parse().unwrap();
+        let upeer = parse_list(&f("upeer"));
+        let ext = f("ext") == "1";
+        let n_props: usize = f("props").parse().unwrap();
+        let root = f("root");
+
+        let uncles: Vec<&UncleBlockView> = self.uncles.iter().take(n_uncles).collect();
+        let uncle_hashes: Vec<Byte32> = uncles.iter().map(|u| u.hash()).collect();
+        let proposals: Vec<packed::ProposalShortId> = self.proposals.iter().take(n_props).cloned().collect();
+        let extension: Option<packed::Bytes> = if ext { Some(packed::Bytes::from(ckb_types::bytes::Bytes::from(vec![7u8; 40]))) } else { None };
+        let committed: Option<Vec<usize>> = if root == "bad" { None } else { Some(parse_list(&root)) };
+        let root_hash: Byte32 = match &committed {
+            Some(l) => tx_root(&l.iter().map(|i| &self.txs[*i]).collect::<Vec<_>>()),
+            None => Byte32::from_slice(&[0xEEu8; 32]).unwrap(),
+        };
+        // the hashes a consistent header would carry, computed from the body by the packed helpers
+        let proposals_vec = packed::ProposalShortIdVec::new_builder().set(proposals.clone()).build();
+        let uncles_vec = packed::UncleBlockVec::new_builder().set(uncles.iter().map(|u| u.data()).collect()).build();
+        let good_ph = proposals_vec.calc_proposals_hash();
+        let good_eh = ckb_types::core::ExtraHashView::new(uncles_vec.calc_uncles_hash(), extension.as_ref().map(|e| e.calc_raw_data_hash())).extra_hash();
+        let header = HeaderBuilder::default()
+            .number(1u64)
+            .timestamp(12345u64)
+            .transactions_root(root_hash.clone())
+            .proposals_hash(if f("ph") == "ok" { good_ph } else { Byte32::from_slice(&[0xDDu8; 32]).unwrap() })
+            .extra_hash(if f("eh") == "ok" { good_eh } else { Byte32::from_slice(&[0xCCu8; 32]).unwrap() })
+            .build();
+        let short_ids: Vec<packed::ProposalShortId> = sids.iter().map(|i| self.txs[*i].proposal_short_id()).collect();
+        let prefilled: Vec<packed::IndexTransaction> = pre
+            .iter()
+            .map(|(idx, t)| packed::IndexTransaction::new_builder().index(*idx as u32).transaction(self.txs[*t].data()).build())
+            .collect();
+        let cb: packed::CompactBlock = match &extension {
+            Some(e) => packed::CompactBlockV1::new_builder()
+                .header(header.data())
+                .short_ids(packed::ProposalShortIdVec::new_builder().set(short_ids.clone()).build())
+                .prefilled_transactions(packed::IndexTransactionVec::new_builder().set(prefilled).build())
+                .uncles(packed::Byte32Vec::new_builder().set(uncle_hashes.clone()).build())
+                .proposals(packed::ProposalShortIdVec::new_builder().set(proposals.clone()).build())
+                .extension(e.clone())
+                .build()
+                .as_v0(),
+            None => packed::CompactBlock::new_builder()
+                .header(header.data())
+                .short_ids(packed::ProposalShortIdVec::new_builder().set(short_ids.clone()).build())
+                .prefilled_transactions(packed::IndexTransactionVec::new_builder().set(prefilled).build())
+                .uncles(packed::Byte32Vec::new_builder().set(uncle_hashes.clone()).build())
+                .proposals(packed::ProposalShortIdVec::new_builder().set(proposals.clone()).build())
+                .build(),
+        };
+        let st = verif_compact_block_verify(&cb);
+        if !st.is_ok() {
+            out.count("verify-err");
+            return format!(
+                "verify-err {}",
+                match st.code() {
+                    StatusCode::CompactBlockHasNotPrefilledCellbase => "no-cellbase",
+                    StatusCode::CompactBlockHasOutOfIndexPrefilledTransactions => "out-of-index",
+                    StatusCode::CompactBlockHasOutOfOrderPrefilledTransactions => "out-of-order",
+                    StatusCode::CompactBlockHasDuplicatedShortIds => "dup-short-ids",
+                    StatusCode::CompactBlockHasDuplicatedPrefilledTransactions => "dup-prefilled",
+                    _ => "other",
+                }
+            );
+        }
+        let received: Vec<TransactionView> = recv.iter().map(|i| self.txs[*i].clone()).collect();
+        let uncles_index: Vec<u32> = upeer.iter().map(|i| *i as u32).collect();
+        let received_uncles: Vec<UncleBlockView> = upeer.iter().map(|i| self.uncles[*i].clone()).collect();
+        let active_chain = self.relayer.shared().active_chain();
+        let r = catch_unwind(AssertUnwindSafe(|| {
+            self.rt.block_on(self.relayer.reconstruct_block(&active_chain, &cb, received, &uncles_index, &received_uncles))
+        }));
+        // expected layout, independent of the implementation (valid for verified compact blocks)
+        let total = pre.len() + sids.len();
+        let mut slots: Vec<Option<usize>> = vec![None; total]; // Some(tx) prefilled
+        for (idx, t) in &pre {
+            slots[*idx] = Some(*t);
+        }
+        let mut it = sids.iter();
+        let mut expect_missing = vec![];
+        let mut positional: Vec<Option<usize>> = vec![];
+        for (p, s) in slots.iter().enumerate() {
+            match s {
+                Some(t) => positional.push(Some(*t)),
+                None => {
+                    let sid = *it.next().expect("layout");
+                    if recv.contains(&sid) {
+                        positional.push(Some(sid));
+                    } else {
+                        positional.push(None);
+                        expect_missing.push(p);
+                    }
+                }
+            }
+        }
+        let expect_missing_uncles: Vec<usize> = (0..n_uncles).filter(|i| !upeer.contains(i)).collect();
+        match r {
+            Err(e) => {
+                out.oracle_fail("reconstruct-panic", &format!("{} panic={:?}", line, e.downcast_ref::<String>()));
+                "panic".into()
+            }
+            Ok(ReconstructionResult::Block(b)) => {
+                out.count("result-block");
+                let ids: Vec<usize> = b.transactions().iter().map(|t| self.txs.iter().position(|x| x.hash() == t.hash() && x.witness_hash() == t.witness_hash()).unwrap_or(999)).collect();
+                let same = b.hash() == cb.calc_header_hash();
+                if !same {
+                    out.oracle_fail(
+                        "reconstruct-header-differs",
+                        &format!("Block returned with hash {} but the compact header (the one whose PoW was verified) hashes to {}: {}", b.hash(), cb.calc_header_hash(), line),
+                    );
+                }
+                let body_ok = committed.as_ref().map(|l| l == &ids).unwrap_or(false)
+                    && b.data().proposals().as_slice() == cb.proposals().as_slice()
+                    && b.uncle_hashes().into_iter().collect::<Vec<_>>() == uncle_hashes
+                    && b.calc_transactions_root() == root_hash
+                    && b.extension().map(|e| e.as_slice().to_vec()) == extension.as_ref().map(|e| e.as_slice().to_vec());
+                if !body_ok {
+                    out.oracle_fail("reconstruct-wrong-body", &format!("Block body differs from what the compact block commits to: txs={:?} {}", ids, line));
+                }
+                format!("block txs={} hdr={}", list(&ids), if same { "same" } else { "reset" })
+            }
+            Ok(ReconstructionResult::Missing(txs, us)) => {
+                out.count("result-missing");
+                if txs != expect_missing || us != expect_missing_uncles {
+                    out.oracle_fail("reconstruct-missing-imprecise", &format!("Missing({:?},{:?}) expected ({:?},{:?}): {}", txs, us, expect_missing, expect_missing_uncles, line));
+                }
+                format!("missing txs={} uncles={}", list(&txs), list(&us))
+            }
+            Ok(ReconstructionResult::Collided) => {
+                out.count("result-collided");
+                "collided".into()
+            }
+            Ok(ReconstructionResult::Error(s)) => {
+                out.count("result-error");
+                match s.code() {
+                    StatusCode::CompactBlockHasUnmatchedTransactionRootWithReconstructedBlock => "unmatched".into(),
+                    StatusCode::CompactBlockHasInvalidUncle => "invalid-uncle".into(),
+                    c => format!("error-{}", c as u32),
+                }
+            }
+        }
+    }
+}
+
+fn gen_recon(rng: &mut Rng) -> String {
+    // the block body the sender has in mind
+    let k = rng.range(1, 7) as usize;
+    let mut pool: Vec<usize> = (0..N_TX).collect();
+    rng.shuffle(&mut pool);
+    let body: Vec<usize> = pool[..k].to_vec();
+    let others: Vec<usize> = pool[k..].to_vec();
+    let mut pre: Vec<(usize, usize)> = vec![(0, body[0])];
+    for (i, t) in body.iter().enumerate().skip(1) {
+        if rng.chance(1, 4) {
+            pre.push((i, *t));
+        }
+    }
+    let pre_idx: Vec<usize> = pre.iter().map(|p| p.0).collect();
+    let mut sids: Vec<usize> = body.iter().enumerate().filter(|(i, _)| !pre_idx.contains(i)).map(|(_, t)| *t).collect();
+    let mut root = list(&body);
+    match rng.below(12) {
+        0 => root = "bad".into(),
+        1 if k >= 2 => {
+            // header commits to a different order
+            let mut b2 = body.clone();
+            b2.swap(0, k - 1);
+            root = list(&b2);
+        }
+        2 => {
+            // header commits to a body where one short-id transaction is another transaction
+            let mut b2 = body.clone();
+            let j = rng.below(k as u64) as usize;
+            b2[j] = others[0];
+            root = list(&b2);
+        }
+        3 => {
+            // malformed prefilled list
+            match rng.below(5) {
+                0 => pre.remove(0).1,
+                1 => {
+                    pre.push((rng.below(3) as usize, others[1]));
+                    0
+                }
+                2 => {
+                    pre.push((k + rng.range(0, 3) as usize, others[1]));
+                    0
+                }
+                3 => {
+                    pre[0].0 = 1;
+                    0
+                }
+                _ => {
+                    pre.clear();
+                    0
+                }
+            };
+        }
+        4 if !sids.is_empty() => {
+            let d = sids[rng.below(sids.len() as u64) as usize];
+            sids.push(d);
+        }
+        5 if !sids.is_empty() && pre.len() >= 1 => {
+            // a (non-cellbase) prefilled transaction that is also listed by short id
+            let s = sids[0];
+            pre.push((k, s));
+        }
+        _ => {}
+    }
+    // what the receiver has
+    let mut recv: Vec<usize> = vec![];
+    let avail = rng.below(4);
+    for s in &sids {
+        if avail == 0 || (avail < 3 && rng.chance(2, 3)) {
+            recv.push(*s);
+        }
+    }
+    if rng.chance(1, 3) {
+        recv.push(others[2]);
+    }
+    if rng.chance(1, 6) && !recv.is_empty() {
+        recv.push(recv[0]);
+    }
+    if rng.chance(1, 5) && pre.len() > 0 {
+        recv.push(pre[0].1);
+    }
+    rng.shuffle(&mut recv);
+    let n_uncles = *rng.pick(&[0usize, 0, 0, 1, 2]);
+    let upeer: Vec<usize> = (0..n_uncles).filter(|_| rng.chance(3, 4)).collect();
+    let pre_s = if pre.is_empty() { "-".to_string() } else { pre.iter().map(|(a, b)| format!("{a}:{b}")).collect::<Vec<_>>().join(";") };
+    format!(
+        "recon root={} ph={} eh={} sids={} pre={} recv={} uncles={} upeer={} ext={} props={}",
+        root,
+        if rng.chance(5, 6) { "ok" } else { "bad" },
+        if rng.chance(5, 6) { "ok" } else { "bad" },
+        list(&sids),
+        pre_s,
+        list(&recv),
+        n_uncles,
+        list(&upeer),
+        rng.below(2),
+        rng.below(4)
+    )
+}
+
+// ------------------------------------------------------------------------------------------------
+// frames
+
+fn dec_line(out: &mut Out, known_valid: bool, frame: &[u8]) {
+    let op = format!("dec {} {}", if known_valid { "v" } else { "u" }, hex(frame));
+    let r = catch_unwind(AssertUnwindSafe(|| decompress(ckb_network::bytes::BytesMut::from(frame))));
+    let flagged = !frame.is_empty() && frame[0] & 0x80 != 0;
+    let ans = match r {
+        Err(_) => {
+            out.oracle_fail("frame-panic", &format!("decompress panics on {}", hex(&frame[..frame.len().min(64)])));
+            "panic".to_string()
+        }
+        Ok(Ok(data)) => {
+            // the declared bound: nothing larger than 8 MB comes out of a compressed frame, and an
+            // uncompressed frame yields exactly its own payload
+            if flagged && data.len() > (1 << 23) {
+                out.oracle_fail("frame-unbounded", &format!("decompress returned {} bytes", data.len()));
+            }
+            if !flagged && data[..] != frame[1..] {
+                out.oracle_fail("frame-raw", "uncompressed frame payload changed");
+            }
+            if flagged { if known_valid { format!("snappy {}", data.len()) } else { "flagged".into() } } else { format!("raw {}", data.len()) }
+        }
+        Ok(Err(_)) => {
+            if flagged && !known_valid { "flagged".into() } else { "err".into() }
+        }
+    };
+    out.count(&format!("dec-{}", ans.split(' ').next().unwrap()));
+    out.op(&op, &ans);
+}
+
+fn varint(mut n: u64) -> Vec<u8> {
+    let mut v = vec![];
+    while n >= 0x80 {
+        v.push((n as u8 & 0x7f) | 0x80);
+        n >>= 7;
+    }
+    v.push(n as u8);
+    v
+}
+
+fn frame_case(out: &mut Out, rng: &mut Rng, thorough: bool) {
+    out.begin_case("frame");
+    // compress decision around the threshold, and round trip through the real pair
+    for len in [0usize, 1, 1022, 1023, 1024, 1025, 2000, rng.range(0, 3000) as usize] {
+        let src: Vec<u8> = (0..len).map(|i| (i % 7) as u8).collect();
+        let f = compress(ckb_network::bytes::Bytes::from(src.clone()));
+        out.op(&format!("cmp {}", len), if f[0] & 0x80 != 0 { "snappy" } else { "raw" });
+        match decompress(ckb_network::bytes::BytesMut::from(&f[..])) {
+            Ok(d) if d[..] == src[..] => {}
+            _ => out.oracle_fail("frame-roundtrip", &format!("decompress(compress(x)) != x for len {}", len)),
+        }
+        if len <= 2000 {
+            dec_line(out, true, &f);
+        }
+        out.count("cmp");
+    }
+    // declared lengths around the 8 MB bound with a (necessarily inconsistent) tiny body: too big must
+    // be refused before decoding; within the bound the decoder fails on the body → labelled unknown
+    for n in [(1u64 << 23) - 1, 1 << 23, (1 << 23) + 1, u32::MAX as u64, u32::MAX as u64 + 1, u64::MAX] {
+        let mut f = vec![0x80u8];
+        f.extend_from_slice(&varint(n));
+        f.extend_from_slice(&[0x00, 0x41]);
+        dec_line(out, n > (1 << 23), &f);
+    }
+    // malformed varints / empty frames / flag variants
+    let frames: Vec<Vec<u8>> = vec![
+        vec![],
+        vec![0x00],
+        vec![0x80],
+        vec![0x7f, 1, 2, 3],
+        vec![0x01, 9],
+        vec![0x80, 0x80],
+        vec![0x80, 0xff, 0xff, 0xff, 0xff, 0xff, 0xff, 0xff, 0xff, 0xff, 0xff, 0x01],
+        vec![0xff, 0x03, 0x08, b'a', b'b', b'c'],
+        vec![0x80, 0x03, 0x08, b'a', b'b', b'c'],
+        vec![0xc1, 0x00],
+    ];
+    for f in frames {
+        let valid = f == vec![0x80, 0x03, 0x08, b'a', b'b', b'c'] || f == vec![0xff, 0x03, 0x08, b'a', b'b', b'c'] || f.len() <= 1 || f[0] & 0x80 == 0 || f == vec![0x80] || f == vec![0xc1, 0x00];
+        dec_line(out, valid, &f);
+    }
+    for _ in 0..10 {
+        let n = rng.range(1, 30) as usize;
+        let mut f: Vec<u8> = (0..n).map(|_| rng.next() as u8).collect();
+        if rng.chance(1, 2) {
+            f[0] |= 0x80;
+        }
+        dec_line(out, f[0] & 0x80 == 0, &f);
+    }
+    if thorough {
+        // a real 8 MB and 8 MB + 1 payload (snappy of zeros is small)
+        for len in [1usize << 23, (1 << 23) + 1] {
+            let f = compress(ckb_network::bytes::Bytes::from(vec![0u8; len]));
+            dec_line(out, true, &f);
+        }
+    }
+    out.nontrivial(format!("frame-{}", rng.next() % 1000));
+}
+
+pub fn run(opts: &Opts) {
+    let stream = opts.extra.first().map(|s| s.as_str()).unwrap_or("cb").to_string();
+    let mut out = Out::new(&opts.out);
+    let mut rng = Rng::new(opts.seed ^ 0xcb16);
+    if stream == "frame" {
+        std::panic::set_hook(Box::new(|_| {}));
+        if let Some(p) = &opts.replay {
+            for l in read_replay_ops(p) {
+                let ts: Vec<&str> = l.split(' ').collect();
+                match ts[0] {
+                    "case" => {
+                        out.begin_case(&ts[2..].join(" "));
+                    }
+                    "dec" => dec_line(&mut out, ts[1] == "v", &crate_unhex(ts[2])),
+                    "cmp" => {
+                        let len: usize = ts[1].parse().unwrap();
+                        let f = compress(ckb_network::bytes::Bytes::from(vec![1u8; len]));
+                        out.op(&l, if f[0] & 0x80 != 0 { "snappy" } else { "raw" });
+                    }
+                    other => panic!("C16 frame replay: unknown op {other}"),
+                }
+            }
+        } else {
+            let rounds = if opts.thorough() { 40 } else { 4 } * opts.scale;
+            for r in 0..rounds {
+                frame_case(&mut out, &mut rng, opts.thorough() && r == 0);
+            }
+        }
+        out.finish("frame: one sweep of compress-threshold lengths, 8 MB-bound headers, malformed varints and random frames");
+        return;
+    }
+    let w = World::new(&opts.out);
+    if let Some(p) = &opts.replay {
+        for l in read_replay_ops(p) {
+            if l.starts_with("case ") {
+                out.begin_case(l.splitn(3, ' ').nth(2).unwrap_or(""));
+            } else if l.starts_with("recon ") {
+                let ans = w.recon(&mut out, &l);
+                out.op(&l, &ans);
+            } else {
+                panic!("C16 cb replay: unknown op {l}");
+            }
+        }
+    } else {
+        let cases = if opts.thorough() { 4000 } else { 400 } * opts.scale;
+        for _ in 0..cases {
+            out.begin_case("recon");
+            let l = gen_recon(&mut rng);
+            let ans = w.recon(&mut out, &l);
+            out.nontrivial(format!("{}", ans));
+            out.op(&l, &ans);
+        }
+    }
+    out.finish("cb: one compact block (consistent, lying about the root, or malformed) with one set of received transactions / uncles; fingerprint = the canonical answer");
+    let dir = w._node.dir.clone();
+    drop(w);
+    let _ = std::fs::remove_dir_all(dir);
+    // the tx-pool service keeps the runtime alive; leave through exit
+    std::process::exit(0);
+}
+
+fn crate_unhex(s: &str) -> Vec<u8> {
+    if s == "-" {
+        return vec![];
+    }
+    let b = s.as_bytes();
+    (0..b.len() / 2).map(|i| u8::from_str_radix(std::str::from_utf8(&b[2 * i..2 * i + 2]).unwrap(), 16).expect("hex")).collect()
 }
